@@ -213,18 +213,30 @@ func (s *TieredCompactionStrategy) CompactRange(minKey, maxKey []byte) error {
 		}
 	}
 
-	// Find overlapping files in each level
-	for level := 0; level <= maxLevel; level++ {
-		var overlappingFiles []*SSTableInfo
-
-		for _, file := range s.levels[level] {
-			if file.Overlaps(rangeInfo) {
-				overlappingFiles = append(overlappingFiles, file)
+	// Find overlapping files in each level. The outputs are written below every
+	// existing level, so every version of a key that is moved must be among the
+	// inputs: a selected file also holds keys outside the requested range, and
+	// an older version of such a key in an unselected file would otherwise end
+	// up above the newer one. Extend the selection until no unselected file
+	// overlaps the key range covered by the selected files.
+	selected := make(map[string]bool)
+	for changed := true; changed; {
+		changed = false
+		for level := 0; level <= maxLevel; level++ {
+			for _, file := range s.levels[level] {
+				if selected[file.Path] || !file.Overlaps(rangeInfo) {
+					continue
+				}
+				selected[file.Path] = true
+				task.InputFiles[level] = append(task.InputFiles[level], file)
+				if bytes.Compare(file.FirstKey, rangeInfo.FirstKey) < 0 {
+					rangeInfo.FirstKey = file.FirstKey
+				}
+				if bytes.Compare(file.LastKey, rangeInfo.LastKey) > 0 {
+					rangeInfo.LastKey = file.LastKey
+				}
+				changed = true
 			}
-		}
-
-		if len(overlappingFiles) > 0 {
-			task.InputFiles[level] = overlappingFiles
 		}
 	}
 
